@@ -40,6 +40,17 @@ TABLES = {
     "provenances": dict(cls="ProvenanceTable", fixed=[], ragged=[("timestamp", I1), ("record", I1)]),
 }
 STRING_COLS = {"ancestral_state", "derived_state", "timestamp", "record"}
+# columns that set_columns / append_columns accept as omitted, with the documented default
+OPTIONAL = {
+    "nodes": {"population": -1, "individual": -1, "metadata": ()},
+    "edges": {"metadata": ()},
+    "sites": {"metadata": ()},
+    "mutations": {"parent": -1, "time": "UNKNOWN", "metadata": ()},
+    "individuals": {"location": (), "parents": (), "metadata": ()},
+    "populations": {},
+    "migrations": {"metadata": ()},
+    "provenances": {},
+}
 
 
 def bounds(tier):
@@ -205,7 +216,7 @@ def ops_for(tname, model):
             ops.append(("keep_rows", list(mask)))
     ops.append(("keep_rows", [1] * (n + 1)))
     ops.append(("clear",))
-    variants = ["model", "wronglen", "badoff_first", "badoff_last"]
+    variants = ["model", "wronglen", "badoff_first", "badoff_last"] + [f"omit:{c}" for c in OPTIONAL[tname]]
     variants += [f"badoff_nonmono{j}" for j in range(len(TABLES[tname]["ragged"]))]
     for variant in variants:
         ops.append(("set_columns", variant))
@@ -278,6 +289,11 @@ def bulk_columns(tname, rows, variant):
     ragged = [c for c, _ in TABLES[tname]["ragged"]]
     fixed = [c for c, _ in TABLES[tname]["fixed"]]
     if variant == "model":
+        return d, True
+    if variant.startswith("omit:"):
+        c = variant[5:]
+        d.pop(c)
+        d.pop(c + "_offset", None)
         return d, True
     if variant == "wronglen":
         col = fixed[0] if fixed else ragged[0] + "_offset"
@@ -373,6 +389,13 @@ class Sim:
                 if d is None:
                     return True
                 if good:
+                    if op[1].startswith("omit:"):
+                        import tskit
+
+                        c = op[1][5:]
+                        dv = OPTIONAL[tname][c]
+                        dv = tskit.UNKNOWN_TIME if dv == "UNKNOWN" else dv
+                        rows = [dict(r, **{c: dv}) for r in rows]
                     new_model = (rows if name == "set_columns" else model + rows)
                 else:
                     exp_err = True
